@@ -188,10 +188,10 @@ theorem matchField_registry_covered (c f ln : Nat) (hm : Bool) (r : V) (h : fiel
     ∃ val, PayloadWF val ∧ RecvOK val r :=
   fieldRecv_supported c f ln hm r h
 
-/-- the fields concerned: 36 of the 42 OPENFLOW_BASIC entries, 55 of the 67 NXM_1 entries and both EXPERIMENTER entries have
-    a decoder (the others are `case` labels without a body: DecodeMatchField returns an error, resp. panics, for them) -/
+/-- the fields concerned: 36 of the 42 OPENFLOW_BASIC entries, all 66 NXM_1 entries and both EXPERIMENTER entries have
+    a decoder (the other basic-class ones are `case` labels without a body: DecodeMatchField returns an error for them) -/
 example : (basicFieldTable.filter (fun x => x.2.isSome)).length = 36 ∧
-    ((nxm1FieldTable 0 false).filter (fun x => x.2.isSome)).length = 55 ∧
+    ((nxm1FieldTable 0 false).filter (fun x => x.2.isSome)).length = 66 ∧
     (experimenterFieldTable.filter (fun x => x.2.isSome)).length = 2 := ⟨rfl, rfl, rfl⟩
 
 /-- satisfiable: NewInPortField(7) -/
